@@ -411,7 +411,15 @@ func (s *PathState) step(in ssa.Instruction) {
 	case *ssa.Call:
 		ev := s.callEvent("call", x)
 		id := instrID(x)
-		t := mk("call", ev.Callee, "call@"+id+"<"+shortCallee(ev.Callee)+">", x, ev.Args...)
+		key := "call@" + id + "<" + shortCallee(ev.Callee) + ">"
+		if (ev.Callee == "builtin len" || ev.Callee == "builtin cap") && len(ev.Args) == 1 && ev.Args[0] != nil {
+			// len/cap of a string or slice value is a pure function of that value
+			switch x.Common().Args[0].Type().Underlying().(type) {
+			case *types.Basic, *types.Slice, *types.Array:
+				key = strings.TrimPrefix(ev.Callee, "builtin ") + "(" + ev.Args[0].K + ")"
+			}
+		}
+		t := mk("call", ev.Callee, key, x, ev.Args...)
 		t.Fn = fnName(s.Fn)
 		t.In = x
 		ev.Res = t
